@@ -3,17 +3,18 @@
 use crate::common::*;
 use substrate_fixed::traits::{FromFixed, ToFixed, LossyFrom};
 
+// one source layout per harness, destination layout symbolic: 4 sign pairs x 9 source layouts = all 324 ordered pairs
 macro_rules! conv8 {
-    ($name:ident, $S:ident, $ST:ty, $D:ident, $DT:ty, $dsigned:expr) => {
+    ($name:ident, $S:ident, $ST:ty, $FS:ident, $fs:expr, $D:ident, $DT:ty, $dsigned:expr) => {
         #[cfg(kani)]
         #[kani::proof]
         fn $name() {
             let a: $ST = kani::any();
-            let (fs, fd) = (any_frac8(), any_frac8());
-            let r = floor_div((a as i32) << fd, 1i32 << fs);
+            let fd = any_frac8();
+            let r = floor_div((a as i32) << fd, 1i32 << $fs);
             let p = pol($dsigned, r);
-            with_frac8!(fs, FS => with_frac8!(fd, FD => {
-                let src = $S::<FS>::from_bits(a);
+            with_frac8!(fd, FD => {
+                let src = $S::<$FS>::from_bits(a);
                 let dfx = |b: i32| $D::<FD>::from_bits(b as $DT);
                 assert!($D::<FD>::overflowing_from_num(src) == (dfx(p.wrapped), !p.fits));
                 assert!($D::<FD>::wrapping_from_num(src) == dfx(p.wrapped));
@@ -24,14 +25,22 @@ macro_rules! conv8 {
                 assert!(src.wrapping_to_num::<$D<FD>>() == dfx(p.wrapped));
                 assert!(src.saturating_to_num::<$D<FD>>() == dfx(p.clamped));
                 assert!(src.checked_to_num::<$D<FD>>() == if p.fits { Some(dfx(r)) } else { None });
-            }));
+            });
         }
     };
 }
-conv8!(i8_to_i8, FixedI8, i8, FixedI8, i8, true);
-conv8!(i8_to_u8, FixedI8, i8, FixedU8, u8, false);
-conv8!(u8_to_i8, FixedU8, u8, FixedI8, i8, true);
-conv8!(u8_to_u8, FixedU8, u8, FixedU8, u8, false);
+macro_rules! conv8_all {
+    ($($n:ident, $FS:ident, $fs:expr;)*) => { $(
+        pub mod $n {
+            use super::*;
+            conv8!(i8_to_i8, FixedI8, i8, $FS, $fs, FixedI8, i8, true);
+            conv8!(i8_to_u8, FixedI8, i8, $FS, $fs, FixedU8, u8, false);
+            conv8!(u8_to_i8, FixedU8, u8, $FS, $fs, FixedI8, i8, true);
+            conv8!(u8_to_u8, FixedU8, u8, $FS, $fs, FixedU8, u8, false);
+        }
+    )* };
+}
+conv8_all! { s0, U0, 0; s1, U1, 1; s2, U2, 2; s3, U3, 3; s4, U4, 4; s5, U5, 5; s6, U6, 6; s7, U7, 7; s8, U8, 8; }
 
 // fixed <-> primitive integer (every integer type), 8-bit fixed side with symbolic frac
 macro_rules! conv_int {
@@ -46,11 +55,14 @@ macro_rules! conv_int {
                 // integer -> fixed : exact value n * 2^f
                 let fx = |b: i128| $Fx::<F>::from_bits(b as $FT);
                 let (fmin, fmax): (i128, i128) = if $fsigned { (-128, 127) } else { (0, 255) };
-                let big = (n as i128 > 1 << 40) || ((n as i128) < -(1 << 40));
-                let r = if big { 0 } else { (n as i128) << f };
+                #[allow(unused_comparisons)]
+                let n_neg = n < 0;
+                let mag: u128 = if n_neg { (n as i128).unsigned_abs() } else { n as u128 };
+                let big = mag > (1u128 << 40);
+                let r: i128 = if big { 0 } else if n_neg { -((mag as i128) << f) } else { (mag as i128) << f };
                 let fits = !big && r >= fmin && r <= fmax;
-                let wrapped = if $fsigned { (((n as i128 as u128) << f) as i8) as i128 } else { (((n as i128 as u128) << f) as u8) as i128 };
-                let clamped = if (n as i128) < 0 && !fits { fmin } else if !fits { fmax } else { r };
+                let wrapped = if $fsigned { (((n as u128) << f) as i8) as i128 } else { (((n as u128) << f) as u8) as i128 };
+                let clamped = if fits { r } else if n_neg { fmin } else { fmax };
                 assert!($Fx::<F>::overflowing_from_num(n) == (fx(wrapped), !fits));
                 assert!($Fx::<F>::wrapping_from_num(n) == fx(wrapped));
                 assert!($Fx::<F>::saturating_from_num(n) == fx(clamped));
@@ -58,10 +70,10 @@ macro_rules! conv_int {
                 // fixed -> integer : floor(a / 2^f)
                 let src = $Fx::<F>::from_bits(a);
                 let q = floor_div(a as i32, 1i32 << f) as i128;
-                let ifits = q >= $imin as i128 && q <= $imax as i128;
+                let ifits = if q < 0 { <$I>::MIN != 0 && q >= <$I>::MIN as i128 } else { (q as u128) <= <$I>::MAX as u128 };
                 assert!(src.overflowing_to_num::<$I>() == (q as $I, !ifits));
                 assert!(src.wrapping_to_num::<$I>() == q as $I);
-                assert!(src.saturating_to_num::<$I>() == if q < $imin as i128 { $imin } else if q > $imax as i128 { $imax } else { q as $I });
+                assert!(src.saturating_to_num::<$I>() == if ifits { q as $I } else if q < 0 { <$I>::MIN } else { <$I>::MAX });
                 assert!(src.checked_to_num::<$I>() == if ifits { Some(q as $I) } else { None });
             });
         }
